@@ -19,8 +19,14 @@ def run(ck):
                       "non-trivial = at least one message sent.")
     ck.assumptions += ["components drain every port at every activation unless marked stalling", "quiescence = Run() returned"]
     cfgs = ["TickImpl_q1.cfg", "TickImpl_q2.cfg"] if q else ["TickImpl_t1.cfg", "TickImpl_t2.cfg", "TickImpl_t3.cfg", "TickImpl_t4.cfg", "TickImpl_t5.cfg"]
+    # negative control: the design before the W1 repair (Repaired = FALSE) must lose a wake-up
+    neg = ck.run_tlc(["tick"], "TickImpl", "TickImpl_neg_w1.cfg", workers=4, timeout=900, tags=())
+    if neg.ok or neg.violated != "NoLostWakeup":
+        raise core.Broken("negative control TickImpl_neg_w1.cfg (pre-repair TickNow) did not violate NoLostWakeup: %s" % neg.violated)
     lost, ok = tickcheck.model_behaviours(ck, cfgs, workers=8 if q else 16, cap=2000 if q else 40000)
     ck.note("model: %d behaviours end with a lost wake-up (hypotheses), %d do not" % (len(lost), len(ok)))
+    if lost:
+        ck.note("DRIFT/hypotheses: the model of the repaired scheduler still loses a wake-up in %d behaviours; they are replayed on the real code below" % len(lost))
     systems = [tickcheck.system_from_behaviour(b) for b in lost + ok]
     cases, out = tickcheck.run_and_monitor(ck, "model-scripts", systems=systems)
     ck.cov["distinct_nontrivial"] += sum(1 for s in systems if any(a for c in s["comps"] for acts in c["script"] for a in acts if a["op"] == "send"))
